@@ -382,7 +382,7 @@ void hc_seed_families (const Seed *s, HcRun run)
 		for (int v = 0 ; v < n32 + 4 ; v++)
 		{	unsigned char t [4] ; m.a = q [i] ; m.v = v < n32 ? w32_values [v] : extra [v - n32] ; if (m.a + 4 > s->len) continue ;
 			put_word (t, m.v, 4, m.be) ; if (! memcmp (t, s->data + m.a, 4)) continue ;
-			run (s, &m, light, 0) ;
+			run (s, &m, light | (hc_is_reference (s) ? 1 << HR_PIPE : 0), 0) ;	/* size fields over a pipe: the header stays cached, skips cannot seek */
 			}
 		}
 	if (s->wide)
